@@ -82,6 +82,50 @@ def sweep(prog_path, workdir, maxp=120, jobs=16, two_level=False, three_level=Fa
     return results
 
 
+def grid_sweep(grid_path, workdir, tier="quick", jobs=16):
+    """Schedules from a template with integer parameters (corpus/grids/*.grid): minimised
+    shapes of failing schedules found earlier, widened so that they survive small changes
+    in the number of steps of an operation."""
+    os.makedirs(workdir, exist_ok=True)
+    prog_path = grid_path[:-5] + ".prog"
+    name = os.path.splitext(os.path.basename(prog_path))[0]
+    tmpl, ranges = None, {}
+    for l in open(grid_path).read().splitlines():
+        w = l.split()
+        if not w or w[0].startswith("#"):
+            continue
+        if w[0] == "template":
+            tmpl = w[1]
+        elif w[0] == tier or (w[0] == "quick" and tier not in ranges):
+            ranges[w[0]] = {kv.split("=")[0]: kv.split("=")[1] for kv in w[1:]}
+    rg = ranges.get(tier) or ranges["quick"]
+    keys = sorted(rg)
+    spans = []
+    for k in keys:
+        lo, hi = rg[k].split("..")
+        spans.append(range(int(lo), int(hi) + 1))
+    jobs_list = []
+    for vals in itertools.product(*spans):
+        sc = tmpl.format(**dict(zip(keys, vals)))
+        base = os.path.join(workdir, "%s-g-%s" % (name, hashlib.sha1(sc.encode()).hexdigest()[:8]))
+        jobs_list.append((prog_path, 0, sc, base))
+    def one(j):
+        return corr.run_program(j[0], j[1], j[2], j[3], family="corpus")
+    with ThreadPoolExecutor(max_workers=jobs) as ex:
+        return list(ex.map(one, jobs_list))
+
+
+def grids_for(pid, root):
+    import glob
+    out = []
+    for g in sorted(glob.glob(os.path.join(root, "corpus/grids/*.grid"))):
+        for l in open(g).read().splitlines():
+            w = l.split()
+            if w and w[0] == "props" and pid in w[1:]:
+                out.append(g)
+    return out
+
+
 if __name__ == "__main__":
     import glob
     paths = sys.argv[1:] or sorted(glob.glob(os.path.join(os.path.dirname(HERE), "corpus/scenarios/*.prog")))
